@@ -64,9 +64,18 @@ class Clock:
 
 
 class StubEvent:
+    instances = []
+
     def __init__(self):
         self.flag = False
         self.sets = 0
+        StubEvent.instances.append(self)
+
+    def clear(self):
+        self.flag = False
+
+    def wait(self, timeout=None):
+        return self.flag
 
     def set(self):
         self.flag = True
@@ -363,7 +372,7 @@ def _auto_case(ops, exit_kind, ansi, pre_spins, interval_s, inflight=False, end=
 
         def spinner(n):
             for _ in range(n):
-                if pi._auto_running.is_set():
+                if StubEvent.instances and StubEvent.instances[-1].is_set():
                     return
                 pi.advance()                       # one iteration of _spin's loop
                 clock.sleep(0.1)
@@ -376,7 +385,7 @@ def _auto_case(ops, exit_kind, ansi, pre_spins, interval_s, inflight=False, end=
                 if p is not pi:
                     return False
                 thread = StubThread.instances[-1]
-                event = pi._auto_running
+                event = StubEvent.instances[-1]          # the stop signal the indicator created for this block (observed through the stub, not a private name)
                 if thread.started != 1:
                     return False
                 spinner(pre_spins)
